@@ -139,7 +139,12 @@ def runCase (j : Json) : Except String Json := do
   for oj in ops do
     let name ← fldStr oj "op"
     let oi ← fldNat oj "obj"
-    let some p := objs[oi]? | throw s!"bad obj {oi}"
+    -- an operation addressed to a copy that was never made (the copy raised): both sides report it and go on
+    let some p := objs[oi]?
+      | do
+        obs := obs.push (Json.mkObj [("out", Json.str "no-such-object"), ("ret", Json.null),
+          ("snap", Json.arr (objs.map (jPool keys strats)))])
+        continue
     let mut out := Json.str "ok"
     let mut ret := Json.null
     if name == "copy" then
